@@ -480,7 +480,7 @@ func TestCheck(t *testing.T) {
 	H.Sub(t, "families", runFamilies)
 	H.Sub(t, "prog", runProg)
 	H.Sub(t, "cls", runGen("cls", "rapid: one class (optionally extends a base with observable receivers) with 1–5 drawn members — private fields / methods / accessors (static and instance), public and static fields, static blocks, computed keys, methods and getters — whose initialisers and bodies use this / super (call, get, set, update, optional, tagged) / new.target / private names directly, in arrows, nested arrows and async arrows; the class is evaluated in one of 23 contexts (top level, block, every loop kind incl. labelled continue, nested loops, loop head, try/finally, switch, function/method/arrow/generator/async bodies, static block of an outer class), every member is then exercised from outside on each evaluation and across evaluations (brand checks)"+ruleTail, 1300, 60000, genCls))
-	H.Sub(t, "pat", runGen("pat", "rapid: an object pattern (depth ≤3, usually with a rest element) whose computed keys (identifiers, assignments, updates, probes, symbols), default values and targets (variables, members, the key variables themselves) alias each other, over sources with getters that log or mutate the key variables, in 22 positions (var/let/const, assignment statement and expression, for-of / for-in / for-await heads in declaration and assignment form, parameters of functions, arrows, async functions, generators, methods and setters, parameter defaults, catch, nested in array patterns, for-init); a source object in the head of a let/const for-of / for-await loop never mentions a key variable that the loop's own pattern binds: natively such a reference can only throw a TDZ ReferenceError (the head is evaluated with the loop bindings uninitialised), and esbuild documents that it does not model TDZ errors — lowering moves the declaration into the loop body"+ruleTail, 1200, 60000, genPat))
+	H.Sub(t, "pat", runGen("pat", "rapid: an object pattern (depth ≤3, usually with a rest element) whose computed keys (identifiers, assignments, updates, probes, symbols), default values and targets (variables, members, the key variables themselves) alias each other, over sources with getters that log or mutate the key variables, in 22 positions (var/let/const, assignment statement and expression, for-of / for-in / for-await heads in declaration and assignment form, parameters of functions, arrows, async functions, generators, methods and setters, parameter defaults, catch, nested in array patterns, for-init); a source object in the head of a let/const for-of / for-await loop never mentions a key variable that the loop's own pattern binds: natively such a reference can only throw a TDZ ReferenceError (the head is evaluated with the loop bindings uninitialised), and esbuild documents that it does not model TDZ errors — lowering moves the declaration into the loop body; assignment patterns have no computed string-literal keys `[\"a\"]`: esbuild prints them as plain keys, and V8 (against the specification) evaluates member-target operands under a plain key, but not under a computed key, before it rejects a null / undefined value"+ruleTail, 1200, 60000, genPat))
 	H.Sub(t, "loop", runGen("loop", "rapid: 1–4 nested loops (for-await over async/sync generators, hand-written iterators with observable return(), arrays of promises; for-of; for; while; do-while; for-in) with zero, one or two stacked labels and labelled blocks, bodies with awaits, yields, closures over the iteration binding (called after the loop), try/finally, switch, and conditional break / continue / return to inner and outer labels, inside async functions, arrows, methods, and async generators driven by next(value)/return()"+ruleTail, 1000, 50000, genLoop))
 	complete = true
 }
